@@ -114,7 +114,7 @@ func (c *Cfg) SimCfg() *simrt.Config { return &c.Sim }
 type H struct{}
 
 func (h *H) Name() string     { return "h9outputs" }
-func (h *H) Props() []string  { return []string{"C19", "C09"} }
+func (h *H) Props() []string  { return []string{"C19", "C09", "C05"} }
 func (h *H) NewCfg() core.Cfg { return &Cfg{} }
 
 var nasty = []string{"plain", "", "with \"quotes\"", "back\\slash", "new\nline", "tab\tand\rcr", "ctl\x01\x1f", "utf8 ünï", "bad\xff\xfeutf", "}{", "\"}}\n{\"index\"", strings.Repeat("long", 50), "a/b-c_d", "sp ace", "%", "\\\"", " "}
@@ -156,7 +156,8 @@ func (h *H) Gen(rng *rand.Rand, tier, prop string) core.Cfg {
 	c.Sim.QuietAt = 20 * time.Second
 	c.Raw = c.Sink == "http" && core.Chance(rng, 0.35)
 	c.DLQ = c.Sink != "file" && core.Chance(rng, 0.5)
-	if prop == "C09" {
+	if prop == "C09" || prop == "C05" {
+		// C05 here: no event is finalised (returned to the pool) twice, which needs the dead-queue paths as well
 		// the retry/dead-queue routing of the real outputs: a dead queue makes a give-up observable
 		for c.Sink == "file" {
 			c.Sink = core.Pick(rng, "es", "http", "splunk", "kafka", "loki", "gelf")
@@ -1000,6 +1001,8 @@ func (h *H) Run(cc core.Cfg, sim *simrt.Sim) *core.Outcome {
 			r.o.Violate("C09", "committed-by-main-output-and-dead-queue", "%s output: event id %d was handed to the dead queue and also committed by the main output (%d times)", cfg.Sink, e.ID, r.mainCommits[e.ID])
 		}
 		if r.commits[e.ID] > 1 {
+			// a commit is what finalises an event: the pipeline returns it to the pool at each one
+			r.o.Violate("C05", "event-finalized-twice", "%s output: event id %d was committed %d times (main output %d times, dead queue: %v): the pipeline finalises, and returns to the pool, at every commit", cfg.Sink, e.ID, r.commits[e.ID], r.mainCommits[e.ID], r.inDLQ[e.ID])
 			r.viol("event-committed-twice", "event id %d was committed %d times (main output %d times, dead queue: %v)", e.ID, r.commits[e.ID], r.mainCommits[e.ID], r.inDLQ[e.ID])
 		}
 		okCount := 0
@@ -1048,6 +1051,7 @@ func (h *H) Run(cc core.Cfg, sim *simrt.Sim) *core.Outcome {
 	}
 	o.NonTrivial["C19"] = r.requests > 0 && len(cfg.Events) > 1
 	o.NonTrivial["C09"] = r.had5xx && cfg.DLQ
+	o.NonTrivial["C05"] = r.had5xx && cfg.DLQ
 	if len(r.inDLQ) > 0 {
 		o.Probes["events-in-dead-queue"] += len(r.inDLQ)
 	}
